@@ -322,6 +322,7 @@ type FuncContract struct {
 	NoWrapArith bool // like nowrap, but conversions between integer types may truncate
 	NoPanic   bool
 	BoundsSafe bool // only index / slice bounds obligations (a subset of nopanic)
+	SingleExit bool // the function leaves only through its last return statement (no early return)
 	BV        bool
 	Inline    bool
 	Pure      bool
@@ -358,7 +359,7 @@ var siteAssertRe = regexp.MustCompile(`:\s*(assert|domain)\s+`)
 
 var clauseKeywords = map[string]bool{
 	"spec": true, "func": true, "extern": true, "lemma": true, "props": true, "requires": true,
-	"ensures": true, "nowrap": true, "nowrap-arith": true, "nopanic": true, "bounds-safe": true, "theory": true, "inline": true, "pure": true,
+	"ensures": true, "nowrap": true, "nowrap-arith": true, "nopanic": true, "bounds-safe": true, "single-exit": true, "theory": true, "inline": true, "pure": true,
 	"modifies": true, "site": true, "covers-nonnil-returns": true, "loop": true, "let": true,
 	"trusted": true, "effect-free": true, "inline-pkg": true, "replay": true, "load-pkg": true, "inline-func": true, "axiom": true, "uses": true, "modifies-assumed": true,
 }
@@ -572,6 +573,8 @@ func ParseContractFile(path, pkgPath string) (*ContractFile, error) {
 			cur.NoPanic = true
 		case "bounds-safe":
 			cur.BoundsSafe = true
+		case "single-exit":
+			cur.SingleExit = true
 		case "theory":
 			if strings.TrimSpace(rc.text) == "bv" {
 				cur.BV = true
